@@ -170,6 +170,14 @@ def run(pid, tier, seed):
                 bt = ("unrepresentable", Q(repr(back)))
         if bt != tyconv.canon(raw):
             chk.fail("roundtrip", dict(case, json=text, came_back=sexp.dumps(bt)))
+        elif back is not None:
+            # encoding is a function of the structure: the decoded type is structurally identical, so it encodes to the same JSON
+            try:
+                again = envmodel.json_to_tree(json.loads(type_to_json(back)))
+                if again != ij:
+                    chk.fail("structure-only", dict(case, detail="encode(decode(encode(t))) differs from encode(t)", first=sexp.dumps(ij), again=sexp.dumps(again)))
+            except Exception as e:
+                chk.fail("structure-only", dict(case, error=repr(e)[:200]))
         if not isinstance(raw, str) and raw[0] not in ("cls",):
             chk.nontriv(sexp.dumps(tyconv.canon(raw)))
         if origin == "inferred":
